@@ -85,7 +85,7 @@ class Target:
         self.concretise = None
         self.native_call = None
         self.max_paths = 20000
-        self.timeout_ms = 10000
+        self.timeout_ms = 30000  # per obligation; sized so that verdicts do not flip to `unknown` when all cores are busy (typical: milliseconds)
         self.cvc5_ms = None
         self.cover = []
         self.exc_any_ok = False
@@ -153,7 +153,7 @@ def check_unsat(assertions, timeout_ms=10000, want_model=True, seed=0, cvc5_ms=N
         s = z3.Solver()
         s.set('auto_config', False)
         s.set('mbqi', False)
-        s.set('timeout', min(timeout_ms, 5000))
+        s.set('timeout', min(timeout_ms, 15000))
         s.set('random_seed', seed)
         for a in assertions:
             s.add(a)
